@@ -253,10 +253,13 @@ def encode(draw, T, vals, cfg=DEFAULT, allow_indexed=True, under_option=False):
         n = len(vals)
         perm = draw(st.permutations(list(range(n)))) if n > 0 else []
         storage = [vals[i] for i in perm]
-        inner = draw(_encode_node(T, storage, cfg, False))
         index = [0] * n
         for pos, i in enumerate(perm):
             index[i] = pos
+        if draw(st.integers(0, 2)) == 0:
+            # unreachable entries: the content is longer than the index (appended, so the positions above stay right)
+            storage = storage + draw(_garbage(T, cfg, draw(st.integers(1, 2))))
+        inner = draw(_encode_node(T, storage, cfg, False))
         d = {"class": "IndexedArray" + w, "index": index, "content": inner}
     return d
 
